@@ -452,6 +452,13 @@ class ChangeScenario(Scenario):
             return [f for f in allowed if not (f == 'lost' and req.state != 'new')] if req.state == 'new' else ()
         return ()
 
+    def serve_fault(self, env: Env, req: Request) -> str | None:
+        # scripted: the worker's PATCH requests issued inside `fail_window` are answered 500 (the object's processing fails and is throttled)
+        win = self.params.get('fail_window')
+        if win and req.method == 'patch' and req.origin.startswith('worker for') and float(win[0]) <= env.now < float(win[1]):
+            return '500'
+        return None
+
     def delays(self, env: Env, req: Request) -> bool:
         return bool(self.params.get('delays', True)) and req.method == 'patch'
 
